@@ -44,6 +44,21 @@ def _watch_release(s, hid, until_ms, step_ms=500):
     return released_at, before
 
 
+def _watch_release_busy(s, hid, until_ms):
+    """Advance time WITHOUT letting the open step bodies finish; report when the run's loop disappears."""
+    released_at = -1
+    flags = _engine_flags(s)
+    while s.now_ms() < until_ms:
+        was_live = s.live_loops(hid)
+        nt = s.loop.next_timer()
+        if nt is None:
+            break
+        s.advance_to_ms(min(en.ms(nt - s.t0), until_ms))
+        if was_live and not s.live_loops(hid) and released_at < 0:
+            released_at = s.now_ms()
+    return released_at, flags
+
+
 # ------------------------------------------------------------------------------------------------ C14
 
 def c14_cases(workdir, quick=True):
@@ -267,6 +282,23 @@ def idle_cases(workdir, quick=True):
                                                                "expect_result": "done", "expect_resp": ["x0"]}))
         finally:
             s.close()
+    # 4b. an event arrives BEFORE the idle timeout; the step it wakes is still running when the old deferred-release
+    #     timer fires: the busy run must not be released
+    s = mk(sc.two_waits())
+    try:
+        s.advance_to_ms(4000)
+        s.send("h1", "Resp", "x0", 0)          # wakes a; its replay now sits at its gate (a running step body)
+        released_at, before = _watch_release_busy(s, "h1", 14000)
+        rel = released_at >= 0
+        s.drain()
+        s.send("h1", "Resp", "x1", 1)
+        s.run_to_end(s.now_ms() + 40000)
+        out.append(final(s, "busy_after_early_send", {"gap_ms": 4000, "idle_timeout_ms": int(IDLE * 1000), "released": rel,
+                                                      "released_at": released_at, "idle_row_before_send": True,
+                                                      "busy_at_release": bool(rel), "expect_result": "done",
+                                                      "expect_resp": ["x0", "x1"]}))
+    finally:
+        s.close()
     # 5. idle announced while a retry is waiting out its delay (> idle_timeout): the busy run is released
     s = mk(sc.retry_then_stop(25))
     try:
